@@ -39,6 +39,38 @@ HISTORIES of several Sample objects in one process (reused / duplicated objects)
          sample>", "decay_time-answers-for-an-earlier-activation-of-the-sample", otherwise
          "decay_time-differs-from-fresh-sample:<after-an-earlier-decay_time-question | sample-activated-more-than-once | another-sample-was-activated:
          <relation> | one-sample-activated>"; no history that extends a violating one is explored.
+OPTIONS AND UPDATES (every optional argument of calculate_activation at a non-default value; every object the
+         Sample refers to updated by the caller between the calculation and the question): for every (formula, mass,
+         environment) every option = abundance {argument omitted, NIST2001_isotopic_abundance passed, IAEA1987_
+         isotopic_abundance, a caller-owned callable object that gives all isotopes of an element equal shares} x
+         exposure {argument omitted, values} x rest times {(0,1,24,360) as list / tuple / numpy array / argument omitted,
+         (24,0.75) and (0,) as list / tuple / numpy array} is calculated on fresh objects and asked for every target
+         multiplier; then, again on fresh objects, every single update kind that applies - env.fluence scaled,
+         env.Cd_ratio changed, env.fast_ratio changed, the environment object used (unchanged / changed) for the
+         calculation of ANOTHER Sample, sample.environment replaced by another environment object, the rest-time
+         list / array edited in place (values changed and reversed; list extended at both ends), the state of the
+         caller's abundance callable changed - is applied after calculate_activation and before decay_time.
+         Oracle (7): decay_time answers for the activation AS IT WAS CALCULATED: the removal activities are column
+         'rest time 0' of the activity table the Sample itself reports at the time of the question (if 0 was not
+         requested: the table of the same calculation from fresh equal objects with rest_times=[0], as in the grid);
+         (1)-(4) are judged against them, and after an update the answer equals the answer without the update (same
+         comparison as (5)).  The other Sample that used the same environment object is judged against its own table.
+         Assigning to sample.mass or sample.exposure after the calculation is EXECUTED and counted in the outcome
+         histogram but NOT judged (the statement does not say which calculation the Sample stands for after the
+         caller changed one of its input attributes without recalculating).  Names: "decay_time-answers-for-the-
+         default-abundance-function" (the Sample of the same calculation without the abundance argument passes, and
+         asked for this very target it gives - rightly for its own table - the answer observed, which is a positive
+         time, or a 0 while a fixed small probe calculation shows the same for a positive time; a violation of an
+         abundance option that this probe does not explain, and one of the other Sample that used the environment,
+         keeps the neutral name of the grid, the other Sample's "decay_time-answers-for-the-activation-of-another-
+         sample:same-environment-object" if it gives the first Sample's right answer), "decay_time-answers-for-objects-updated-after-the-calculation:
+         <environment-object-updated | environment-object-used-by-another-sample | environment-attribute-of-the-
+         sample-replaced | rest-times-object-edited-in-place | abundance-callable-updated>" (the answer is that of a
+         fresh calculation from the objects as they are now), "decay_time-differs-from-activity-table:after-<update
+         class>" if it is not (the same calculation without the update passes), "rest-times-as-<numpy-
+         array | tuple | default-argument>:<symptom>" when the same calculation with the rest times passed as a list
+         passes; a symptom that a control option (rest times as list / abundance argument omitted) shows as well for
+         the same target is reported there only; updates of an option whose plain calculation violates are not explored.
 Signatures name the CAUSE.  The verdict never depends on the attribution; the attribution uses the
 input class and read-only cause probes:
   * "information lost" (class Lost): the activities the Sample holds at its smallest rest time To,
@@ -135,19 +167,36 @@ META = dict(
           "copy.deepcopy, activate with parameter set A or B, ask} over at most three Sample objects up to the depth "
           "bound, followed by a question to one object whose answer is claimed, is executed from scratch and compared "
           "with a fresh Sample given that object's last activation; a history is non-trivial when two objects were "
-          "activated and not all activations used the same parameter set"),
+          "activated and not all activations used the same parameter set; "
+          "options and updates: every (formula, mass, environment) x every option (abundance argument omitted / each "
+          "documented function / a caller-owned callable object, exposure omitted / given, rest times as list / tuple / "
+          "numpy array / omitted) is calculated on fresh objects, then every single caller-side update of an object the "
+          "Sample refers to (environment attributes, environment reused for another Sample, sample.environment replaced, "
+          "rest-time object edited in place, abundance callable's state) is applied between calculate_activation and "
+          "decay_time, x every target multiplier; judged against the activities at removal the Sample's own activity "
+          "table reports; such a case is non-trivial when a positive time has to be solved for and a calculation with "
+          "the default abundance function (option cases) or from the objects as they are after the update (update "
+          "cases) has an answer that the oracle rejects for this table"),
     bound=dict(
         quick="10 samples (Co30Fe70, Au, NaCl, Eu, Co, SiO2, Hf, Lu2O3, Cu[63]0.5Cu0.5, Co[59]Co - the last two name an isotope and its natural element) x 4 masses x 3 environments x 3 exposures = 360 "
               "configurations x (20 + 2) rest-time lists (3 of them on a Sample object that was activated before) x 26 target multipliers (1e-9 .. 10 times the activity at "
               "removal, with 1-1e-9, 1, 1+1e-9); + 110 collision samples (19 row pairs, 15 nuclides) x mass 1 g x 3 "
               "environments x 3 exposures = 990 configurations x the same lists and multipliers; "
               "histories: 2 formulas (Co30Fe70, NaCl) x all 6960 (event sequence of length <= 4 after the first Sample, "
-              "object asked) over <= 3 objects x 3 target multipliers (1e-3, 0.5, 2)",
+              "object asked) over <= 3 objects x 3 target multipliers (1e-3, 0.5, 2); "
+              "options and updates: 12 formulas (the 10 samples + Fe, Li2MoO4) x mass 1 g x 3 environments x "
+              "[4 abundance options x exposure {omitted, 10 h} x 10 rest-time arguments ((0,1,24,360) as list/tuple/"
+              "numpy array/omitted, (24,0.75) and (0,) as list/tuple/numpy array) = 80 options] x [no update + every "
+              "applicable one of 9 judged update kinds + 2 executed-not-judged attribute assignments] x 26 target "
+              "multipliers",
         thorough="15 samples (quick + In, Ag, CdTe, B4C, Li[6]0.3Li0.7F) x 4 masses x 3 environments x 3 exposures = 432 "
                  "configurations x (20 + 2) rest-time lists (3 of them on a Sample object that was activated before) x 26 target multipliers (contains the quick grid); "
                  "+ 110 collision samples x masses {1e-3, 1} g x 3 environments x 3 exposures = 1980 configurations; "
                  "histories: 4 formulas (Co30Fe70, NaCl, Eu, Cu[63]0.5Cu0.5) x all 72630 (event sequence of length <= 5, "
-                 "object asked) over <= 3 objects x 3 target multipliers"),
+                 "object asked) over <= 3 objects x 3 target multipliers; "
+                 "options and updates: 17 formulas (the 15 samples + Fe, Li2MoO4) x masses {1e-3, 1, 10} g x 3 "
+                 "environments x [4 abundance options x exposure {omitted, 0.1, 10, 1e3 h} x 10 rest-time arguments = "
+                 "160 options] x the same updates x 26 target multipliers"),
     assumptions=[
         "the activities at removal and the half-lives are those served by calculate_activation(rest_times=[0]) "
         "and ActivationResult.Thalf_hrs of the tree under test (their correctness is property C14)",
@@ -170,6 +219,20 @@ META = dict(
         "before calculate_activation (as after construction); a deep copy of an activated Sample is an activated "
         "Sample; what a shallow copy answers BEFORE it is activated itself is outside the alphabet (it shares its "
         "tables with its source), as is asking a Sample that was never activated",
+        "decay_time answers for the activation as it was calculated: the activities at removal are the ones the Sample "
+        "reports in its own activity table (column of rest time 0) at the time of the question; this decides every "
+        "abundance argument, and every update of the environment object (attributes changed in place, object reused for "
+        "another calculation, sample.environment replaced), of the caller's rest-time list / array and of the caller's "
+        "abundance callable after the calculation: none of them changes the table, so none changes the answer",
+        "NOT decided by the statement and therefore executed but not judged: the caller assigns to sample.mass or "
+        "sample.exposure (input attributes of the Sample itself) after the calculation without recalculating; outside "
+        "the alphabet: assigning to sample.formula / sample.activity / sample.rest_times, emptying the caller's "
+        "rest-time list in place (length 0 is outside the quantifier), updates of the Formula object, two updates at "
+        "once, an option whose calculate_activation raises (C14)",
+        "a numpy array of rest times is a rest-time list (the docstring says 'list of deactivation times', the default "
+        "is a tuple, the calculation accepts any sequence)",
+        "a custom abundance callable is any callable isotope -> percent; the one enumerated gives all isotopes of an "
+        "element (el.isotopes) equal shares, so that its table differs from the default one for every sample",
     ],
     level_text=("bounded-exhaustive execution of the real decay_time on every grid point; each returned time is "
                 "checked against the decay sum recomputed from independently obtained removal activities, and "
@@ -255,16 +318,28 @@ class Products(object):
     """Removal activities and half-lives of one configuration, from the oracle's own [0] calculation."""
     def __init__(self, act, formula, mass, envt, exposure):
         ref = activate(act, formula, mass, envt, exposure, (0,))
+        for a, v in ref.activity.items():
+            if len(v) != 1:
+                raise MachineryError("reference activation has %d entries for one rest time" % len(v))
+        self._fill([(a, v[0]) for a, v in ref.activity.items()])
+
+    @classmethod
+    def from_table(cls, sample, column):
+        """The activities an activated Sample reports in column `column` of its own activity table (the column of
+        the rest time 0 of the rest times that were passed): the products decay_time has to refer to."""
+        P = cls.__new__(cls)
+        P._fill([(a, v[column]) for a, v in sample.activity.items()])
+        return P
+
+    def _fill(self, rows):
         self.items = []
         self.by_key = {}
         self.physical = True        # every product has a finite activity >= 0 and a half-life > 0
         self.has_zero = False       # some product has an activity of exactly 0.0 at removal
         halflives = {}              # nuclide name -> the half-lives of the rows that produce it
         self.names = []
-        for a, v in ref.activity.items():
-            if len(v) != 1:
-                raise MachineryError("reference activation has %d entries for one rest time" % len(v))
-            A, T = float(v[0]), float(a.Thalf_hrs)
+        for a, v in rows:
+            A, T = float(v), float(a.Thalf_hrs)
             if not (A >= 0 and math.isfinite(A) and T > 0 and math.isfinite(T)):
                 self.physical = False
             if A == 0:
@@ -1030,10 +1105,490 @@ def _hist_shard(job):
     return acc
 
 
+# --------------------------------------------------------------------------------------- options and updates
+# Every optional argument of calculate_activation at a non-default value, and every object the Sample refers to
+# updated by the caller BETWEEN the calculation and the question.  decay_time has to answer for the activation as
+# it was calculated: the activities at removal are the ones the Sample itself reports in its activity table.
+class Shares(object):
+    """A caller-owned abundance callable that is not a function: every isotope of an element gets the same share
+    (percent).  `scale` is state the caller can change after the calculation."""
+    def __init__(self):
+        self.scale = 1.0
+
+    def __call__(self, iso):
+        return self.scale * 100.0 / len(iso.element.isotopes)
+
+
+SHARES_SOURCE = ["class Shares(object):          # a caller-owned abundance callable: equal shares for all isotopes",
+                 "    scale = 1.0",
+                 "    def __call__(self, iso):",
+                 "        return self.scale*100.0/len(iso.element.isotopes)"]
+
+OPT_ABUNDANCE = ("omitted", "NIST2001", "IAEA1987", "custom")       # "omitted" first: it is the control
+OPT_FORMULAS = ("Fe", "Li2MoO4")    # besides SAMPLES[tier]: elements whose two documented abundance tables differ
+OPT_REST = (((0, 1, 24, 360), ("list", "tuple", "ndarray", "omitted")),       # "list" first: it is the control
+            ((24, 0.75), ("list", "tuple", "ndarray")),
+            ((0,), ("list", "tuple", "ndarray")))
+OPT = dict(
+    quick=dict(masses=(1.0,), exposures=("omitted", 10.0)),
+    thorough=dict(masses=(1e-3, 1.0, 10.0), exposures=("omitted", 0.1, 10.0, 1e3)),
+)
+UPDATE_ENV = (1e3, 4.0, 25.0)       # fluence factor, new Cd ratio, new fast ratio (all differ from every ENVS entry)
+OTHER_SAMPLE = (2.0, 3.0, (0, 7))   # mass factor, exposure, rest times of another sample that uses the same environment
+FORM_NAME = dict(ndarray="numpy-array", tuple="tuple", omitted="default-argument")
+
+
+def _env_fluence(b, act):
+    b.env.fluence = b.env.fluence * UPDATE_ENV[0]
+
+
+def _env_cd(b, act):
+    b.env.Cd_ratio = UPDATE_ENV[1]
+
+
+def _env_fast(b, act):
+    b.env.fast_ratio = UPDATE_ENV[2]
+
+
+def _env_other(b, act):
+    b.other = act.Sample(b.formula, OTHER_SAMPLE[0] * b.mass)
+    b.other.calculate_activation(b.env, exposure=OTHER_SAMPLE[1], rest_times=list(OTHER_SAMPLE[2]))
+
+
+def _env_changed_other(b, act):
+    _env_fluence(b, act)
+    _env_cd(b, act)
+    _env_fast(b, act)
+    _env_other(b, act)
+
+
+def _env_replaced(b, act):
+    b.sample.environment = act.ActivationEnvironment(fluence=b.env.fluence * UPDATE_ENV[0], Cd_ratio=UPDATE_ENV[1],
+                                                     fast_ratio=UPDATE_ENV[2])
+
+
+def _rest_values(b, act):
+    b.rest[0] = b.rest[0] + 5.0
+    if isinstance(b.rest, list):
+        b.rest.reverse()
+    else:
+        b.rest[:] = b.rest[::-1].copy()
+
+
+def _rest_extended(b, act):
+    b.rest.append(1000.0)
+    b.rest.insert(0, 0.5)
+
+
+def _ab_scale(b, act):
+    b.ab.scale = 3.0
+
+
+def _mass(b, act):
+    b.sample.mass = 7.0 * b.mass
+
+
+def _exposure(b, act):
+    b.sample.exposure = 77.0
+
+
+# kind -> (apply, class used in signatures (None: executed and counted, NOT judged), applies to (abundance, form), source)
+UPDATES = (
+    ("none", None, "", lambda ab, form: True, []),
+    ("env.fluence-scaled", _env_fluence, "environment-object-updated", lambda ab, form: True,
+     ["env.fluence = env.fluence*%r" % UPDATE_ENV[0]]),
+    ("env.Cd_ratio-changed", _env_cd, "environment-object-updated", lambda ab, form: True,
+     ["env.Cd_ratio = %r" % UPDATE_ENV[1]]),
+    ("env.fast_ratio-changed", _env_fast, "environment-object-updated", lambda ab, form: True,
+     ["env.fast_ratio = %r" % UPDATE_ENV[2]]),
+    ("env-used-by-another-sample", _env_other, "environment-object-used-by-another-sample", lambda ab, form: True,
+     ["other = act.Sample(formula, %r*mass); other.calculate_activation(env, exposure=%r, rest_times=%r)"
+      % (OTHER_SAMPLE[0], OTHER_SAMPLE[1], list(OTHER_SAMPLE[2]))]),
+    ("env-changed-and-used-by-another-sample", _env_changed_other, "environment-object-updated", lambda ab, form: True,
+     ["env.fluence = env.fluence*%r; env.Cd_ratio = %r; env.fast_ratio = %r" % UPDATE_ENV,
+      "other = act.Sample(formula, %r*mass); other.calculate_activation(env, exposure=%r, rest_times=%r)"
+      % (OTHER_SAMPLE[0], OTHER_SAMPLE[1], list(OTHER_SAMPLE[2]))]),
+    ("sample.environment-replaced", _env_replaced, "environment-attribute-of-the-sample-replaced", lambda ab, form: True,
+     ["s.environment = act.ActivationEnvironment(fluence=env.fluence*%r, Cd_ratio=%r, fast_ratio=%r)" % UPDATE_ENV]),
+    ("rest-times-values-edited-in-place", _rest_values, "rest-times-object-edited-in-place",
+     lambda ab, form: form in ("list", "ndarray"), ["rest[0] = rest[0] + 5.0; rest[:] = rest[::-1]"]),
+    ("rest-times-extended-in-place", _rest_extended, "rest-times-object-edited-in-place",
+     lambda ab, form: form == "list", ["rest.append(1000.0); rest.insert(0, 0.5)"]),
+    ("abundance-callable-updated", _ab_scale, "abundance-callable-updated", lambda ab, form: ab == "custom",
+     ["abundance.scale = 3.0"]),
+    ("sample.mass-assigned", _mass, None, lambda ab, form: True, ["s.mass = 7.0*mass"]),
+    ("sample.exposure-assigned", _exposure, None, lambda ab, form: True, ["s.exposure = 77.0"]),
+)
+UPDATE_BY_NAME = dict((u[0], u) for u in UPDATES)
+
+
+def option_list(exposures):
+    """Every (abundance, exposure, rest values, rest form); the controls (form 'list', abundance 'omitted') come
+    before the options they are the control of."""
+    return [(ab, exposure, values, form) for exposure in exposures for values, forms in OPT_REST for form in forms
+            for ab in OPT_ABUNDANCE]
+
+
+def abundance_object(act, kind):
+    if kind == "omitted":
+        return None
+    if kind == "NIST2001":
+        return act.NIST2001_isotopic_abundance
+    if kind == "IAEA1987":
+        return act.IAEA1987_isotopic_abundance
+    if kind == "custom":
+        return Shares()
+    raise MachineryError("unknown abundance kind %r" % (kind,))
+
+
+class Built(object):
+    """Fresh objects of ONE calculation with the given options (one execution of the real calculate_activation)."""
+    def __init__(self, act, cfg, opt):
+        import numpy
+        self.formula, self.mass, envt = cfg
+        ab_kind, exposure, values, form = opt
+        self.env = act.ActivationEnvironment(fluence=envt[0], Cd_ratio=envt[1], fast_ratio=envt[2])
+        kw = {}
+        if exposure != "omitted":
+            kw["exposure"] = exposure
+        self.rest = None
+        if form == "list":
+            self.rest = [x for x in values]
+        elif form == "tuple":
+            self.rest = tuple(values)
+        elif form == "ndarray":
+            self.rest = numpy.array(values, dtype=float)
+        elif form != "omitted":
+            raise MachineryError("unknown rest form %r" % (form,))
+        if self.rest is not None:
+            kw["rest_times"] = self.rest
+        self.ab = abundance_object(act, ab_kind)
+        if self.ab is not None:
+            kw["abundance"] = self.ab
+        self.other = None
+        self.sample = act.Sample(self.formula, self.mass)
+        self.sample.calculate_activation(self.env, **kw)
+        # the rest times of the calculation (for the default argument: what the Sample reports right after it)
+        self.values = tuple(float(x) for x in (self.sample.rest_times if form == "omitted" else values))
+
+    def arguments(self):
+        """What the caller still holds (besides the Sample): environment attributes, rest-time values, callable state."""
+        return (sorted(vars(self.env).items()), None if self.rest is None else [float(x) for x in self.rest],
+                sorted(vars(self.ab).items()) if isinstance(self.ab, Shares) else None)
+
+
+def reported_products(act, cfg, opt, b):
+    """The products decay_time has to refer to: column 'rest time 0' of the table the Sample reports; if 0 was not
+    among the rest times, the table of a calculation from fresh equal objects with rest_times=[0] (as in the grid)."""
+    if 0 in b.values:
+        return Products.from_table(b.sample, b.values.index(0)), "table"
+    ref = Built(act, cfg, (opt[0], opt[1], (0,), "list"))
+    return Products.from_table(ref.sample, 0), "fresh"
+
+
+def recomputed_now(act, b):
+    """Naming / counting only: a calculation from the objects as they are NOW (the Sample's mass, environment and
+    exposure attributes, the abundance callable in its present state), i.e. what a decay_time that recomputes instead
+    of referring to the recorded activities would answer for.  Returns (sample, Products) or None."""
+    try:
+        s = b.sample
+        n = act.Sample(b.formula, s.mass)
+        kw = dict(abundance=b.ab) if b.ab is not None else {}
+        n.calculate_activation(s.environment, exposure=s.exposure, rest_times=[0], **kw)
+        P = Products.from_table(n, 0)
+        return (n, P) if P.physical and P.A0 > 0 else None
+    except Exception:       # noqa
+        return None
+
+
+def abundance_probe(act):
+    """Cause probe (naming only; a returned 0 alone cannot tell 'the default table is below the target' from 'a 0 is
+    returned wrongly'): a fixed small calculation with the equal-shares callable and the same one without the
+    abundance argument, both asked for 1e-3 of the smaller removal activity - does the first give the second's
+    (right, positive) answer, which is wrong for its own table?"""
+    if "abundance" not in _PROBE:
+        try:
+            cfg = ("Fe", 1.0, (1e5, 0.0, 0.0))
+            b, c = Built(act, cfg, ("custom", 1.0, (0,), "list")), Built(act, cfg, ("omitted", 1.0, (0,), "list"))
+            P, Pc = Products.from_table(b.sample, 0), Products.from_table(c.sample, 0)
+            target = 1e-3 * min(P.A0, Pc.A0)
+            o, oc = call(b.sample, target), call(c.sample, target)
+            _PROBE["abundance"] = bool(o[0] == "time" and oc[0] == "time" and oc[1] > 0 and judge(Pc, target, oc) is None
+                                       and judge(P, target, o) is not None and same_answer(Pc, target, oc, o))
+        except Exception:       # noqa
+            _PROBE["abundance"] = False
+    return _PROBE["abundance"]
+
+
+def plain_name(kind, out):
+    return {"exception": "exception:" + str(out[1]), "zero-above-target": "zero-returned-above-target",
+            "inaccurate": "inaccurate-time-returned", "negative-time": "negative-time-returned",
+            "positive-below-target": "positive-time-at-or-below-target"}.get(kind, "non-time-returned")
+
+
+def option_case(cfg, opt, update, mult, other=False):
+    formula, mass, envt = cfg
+    c = dict(kind="option", formula=formula, mass=mass, fluence=envt[0], Cd_ratio=envt[1], fast_ratio=envt[2],
+             abundance=opt[0], exposure=opt[1], rest_times=list(opt[2]), rest_form=opt[3], update=update, mult=mult)
+    if other:
+        c["asked"] = "other"
+    return c
+
+
+def option_snippet(case, expected):
+    ab, form, values = case["abundance"], case["rest_form"], case["rest_times"]
+    L = ["import math, numpy", "from periodictable import activation as act"]
+    if ab == "custom":
+        L += SHARES_SOURCE
+    L += ["formula, mass = %r, %r" % (case["formula"], case["mass"]),
+          "env = act.ActivationEnvironment(fluence=%r, Cd_ratio=%r, fast_ratio=%r)"
+          % (case["fluence"], case["Cd_ratio"], case["fast_ratio"])]
+    kw = ["env"]
+    if case["exposure"] != "omitted":
+        kw.append("exposure=%r" % case["exposure"])
+    if form != "omitted":
+        L.append("rest = " + {"list": "%r", "tuple": "tuple(%r)", "ndarray": "numpy.array(%r, dtype=float)"}[form] % (values,))
+        kw.append("rest_times=rest")
+    if ab != "omitted":
+        L.append("abundance = " + dict(NIST2001="act.NIST2001_isotopic_abundance", IAEA1987="act.IAEA1987_isotopic_abundance",
+                                       custom="Shares()")[ab])
+        kw.append("abundance=abundance")
+    L += ["s = act.Sample(formula, mass)", "s.calculate_activation(%s)" % ", ".join(kw)]
+    if 0 in values:
+        L.append("table = s")
+    else:
+        kw0 = [k for k in kw[1:] if not k.startswith("rest_times")]
+        L += ["table = act.Sample(formula, mass)     # the same calculation from fresh equal objects, rest time 0",
+              "table.calculate_activation(act.ActivationEnvironment(fluence=%r, Cd_ratio=%r, fast_ratio=%r), %s)"
+              % (case["fluence"], case["Cd_ratio"], case["fast_ratio"], ", ".join(kw0 + ["rest_times=[0]"]))]
+    L.append("# between the calculation and the question the caller does this:")
+    L += UPDATE_BY_NAME[case["update"]][4] or ["pass"]
+    if case.get("asked") == "other":
+        L += ["s, table = other, other", "zero = %d" % list(OTHER_SAMPLE[2]).index(0)]
+    else:
+        L.append("zero = %d" % (list(values).index(0) if 0 in values else 0))
+    L += ["prod = [(v[zero], a.Thalf_hrs) for a, v in table.activity.items()]   # activities at removal the sample reports",
+          "A0 = math.fsum(A for A, T in prod); target = A0*%r" % (case["mult"],),
+          "S = lambda t: math.fsum(A*2.0**(-t/T) for A, T in prod)   # total activity t hours after removal",
+          "t = s.decay_time(target)      # RuntimeError would be permitted",
+          "print('t =', t, 'activity(t)/target =', S(t)/target, 'A0/target =', A0/target)",
+          "assert t >= 0",
+          "assert (t == 0) == (A0 <= target) or abs(A0 - target) <= 1e-12*A0",
+          "assert t == 0 or abs(S(t) - target) <= 1.000001e-3*target",
+          "# expected: %s" % expected]
+    return "\n".join(L) + "\n"
+
+
+def ask_all(acc, b_sample, P, mults):
+    """decay_time for every multiplier; returns [(mult, target, out, bad)]."""
+    res = []
+    for mult in mults:
+        target = P.A0 * mult
+        out = call(b_sample, target)
+        acc.evaluations += 1
+        res.append((mult, target, out, judge(P, target, out)))
+    return res
+
+
+def check_options(acc, act, cfg, opts, updates, mults, report=None):
+    """All options x all updates x all targets of one (formula, mass, environment).  `report` (replay only)
+    restricts the reports to one (option, update kind); the controls are executed all the same."""
+    formula = cfg[0]
+    passed = {}         # option -> the calculation without any update passed for every target (None: outside)
+    controls = {}       # (exposure, values, form) -> the Built of abundance 'omitted' without update (naming / counting)
+    shown = {}          # (option, multiplier) -> symptom of the violation of the calculation without any update
+    for opt in opts:
+        ab_kind, exposure, values, form = opt
+        passed[opt] = None
+        try:
+            b = Built(act, cfg, opt)
+            acc.evaluations += 1
+        except Exception as e:      # noqa - the calculation itself is C14's matter
+            acc.count("option_calculations_that_raise_excluded:%s" % type(e).__name__)
+            continue
+        P, source = reported_products(act, cfg, opt, b)
+        if not P.physical or not P.A0 > 0:
+            acc.count("option_calculations_outside_the_alphabet_excluded")
+            continue
+        if ab_kind == "omitted":
+            controls[(exposure, values, form)] = b
+        held, args = held_by(b.sample), b.arguments()
+        res = ask_all(acc, b.sample, P, mults)
+        lost = Lost(b.sample, b.values, P) if source == "fresh" else NothingLost
+        ok = True
+        control = controls.get((exposure, values, form))
+        for mult, target, out, bad in res:
+            acc.states += 1
+            acc.transitions += 1
+            cls = ("returns-0" if out[1] == 0 else "returns-time") if out[0] == "time" else "raises-" + out[1]
+            acc.outcome("option | abundance %s | rest times as %s | no update | %s%s"
+                        % (ab_kind, form, cls, " | VIOLATES" if bad else ""))
+            # counting only: would the calculation with the DEFAULT abundance function be answered differently?
+            if ab_kind != "omitted" and control is not None and passed.get(("omitted", exposure, values, form)) \
+                    and P.A0 - target > BAND * P.A0:
+                if judge(P, target, call(control.sample, target)) is not None:
+                    acc.nontrivial += 1
+                    acc.count("option_cases_where_the_default_abundance_function_has_another_answer:%s" % ab_kind)
+            if bad is None:
+                continue
+            ok = False
+            if report is not None and (opt, "none") not in report:
+                continue
+            kind, expected, observed = bad
+            symptom = (kind, out[1] if kind == "exception" else None)
+            shown[(opt, mult)] = symptom
+            c_form, c_ab = (ab_kind, exposure, values, "list"), ("omitted", exposure, values, form)
+            if (form != "list" and shown.get((c_form, mult)) == symptom) \
+                    or (ab_kind != "omitted" and shown.get((c_ab, mult)) == symptom):
+                # counterfactual control: the same calculation with the rest times passed as a list, or without the
+                # abundance argument, shows the same symptom for this target - it is reported there, not twice
+                acc.count("option_violations_that_a_control_option_shows_as_well")
+                continue
+            if form != "list" and passed.get(c_form) is not None and (c_form, mult) not in shown:
+                sig = "rest-times-as-%s:%s" % (FORM_NAME[form], plain_name(kind, out))
+            elif ab_kind != "omitted" and passed.get(c_ab) is not None and (c_ab, mult) not in shown and control is not None:
+                # cause probe (naming only): the Sample of the same calculation WITHOUT the abundance argument is
+                # asked for this very target; its answer is right for its own table and it is the answer observed
+                Pc, _ = reported_products(act, cfg, c_ab, control)
+                out_c = call(control.sample, target)
+                explained = out[0] == "time" and out_c[0] == "time" and judge(Pc, target, out_c) is None \
+                    and same_answer(Pc, target, out_c, out) and (out[1] > 0 or abundance_probe(act))
+                sig = ("decay_time-answers-for-the-default-abundance-function" if explained
+                       else name_call(act, kind, out, b.values, lost, b.sample, P, target))
+            else:
+                sig = name_call(act, kind, out, b.values, lost, b.sample, P, target)
+            case = option_case(cfg, opt, "none", mult)
+            acc.violation(sig, case, expected=expected, observed=observed, standalone=option_snippet(case, expected),
+                          detail=dict(A0=P.A0, target=target, removal_activities_from=source))
+        if ok:
+            passed[opt] = True
+            if held_by(b.sample) != held or b.arguments() != args:
+                ok = False
+                if report is None or (opt, "none") in report:
+                    case = option_case(cfg, opt, "none", mults[-1])
+                    expected = "the Sample's table and the caller's argument objects are the same before and after decay_time"
+                    acc.violation("decay_time-alters-the-sample" if held_by(b.sample) != held
+                                  else "decay_time-alters-an-argument-object", case, expected=expected,
+                                  observed="%r %r -> %r %r" % (held, args, held_by(b.sample), b.arguments()),
+                                  standalone=option_snippet(case, expected))
+        if not ok:
+            passed[opt] = False
+            acc.count("options_not_explored_beyond_a_violation")
+            continue
+        base = dict((mult, out) for mult, target, out, bad in res)
+        for uname, apply, ucls, applies, _src in updates:
+            if uname == "none" or not applies(ab_kind, form):
+                continue
+            if report is not None and (opt, uname) not in report:
+                continue
+            try:
+                u = Built(act, cfg, opt)
+                acc.evaluations += 1
+                apply(u, act)
+            except Exception as e:      # noqa - neither the calculation nor the caller's update is decay_time
+                acc.count("option_updates_that_raise_excluded:%s:%s" % (uname, type(e).__name__))
+                continue
+            # the table the Sample shows at the time of the question
+            if 0 in u.values:
+                Pu = Products.from_table(u.sample, u.values.index(0))
+            else:
+                Pu = P
+            if not Pu.physical or not Pu.A0 > 0:
+                acc.count("option_calculations_outside_the_alphabet_excluded")
+                continue
+            now = recomputed_now(act, u)
+            held, args = held_by(u.sample), u.arguments()
+            ures = ask_all(acc, u.sample, Pu, mults)
+            violated = False
+            for mult, target, out, bad in ures:
+                acc.states += 1
+                acc.transitions += 1
+                distinct = False
+                if now is not None and Pu.A0 - target > BAND * Pu.A0:
+                    distinct = judge(Pu, target, call(now[0], target)) is not None
+                if ucls is None:
+                    # executed, NOT judged: the statement does not say what the answer is after the caller assigned
+                    # to an input attribute of the Sample itself
+                    acc.outcome("option | %s (not judged) | %s" % (uname, "answer-for-the-table-shown" if bad is None
+                                                                   else "another-answer"))
+                    continue
+                if distinct:
+                    acc.nontrivial += 1
+                    acc.count("update_cases_where_a_recalculation_from_the_updated_objects_has_another_answer:%s" % uname)
+                same = bad is None and same_answer(Pu, target, base[mult], out)
+                acc.outcome("option | %s | %s" % (uname, "same-answer-as-without-the-update" if same else "VIOLATES"))
+                if same or violated:
+                    continue
+                violated = True     # the smallest multiplier that deviates is reported, once per (option, update)
+                # cause probe (naming only): it is the answer of a calculation from the objects as they are now
+                explained = now is not None and out[0] == "time" and judge(now[1], target, out) is None \
+                    and same_answer(now[1], target, call(now[0], target), out)
+                sig = ("decay_time-answers-for-objects-updated-after-the-calculation:" if explained
+                       else "decay_time-differs-from-activity-table:after-") + ucls
+                if bad is not None:
+                    expected, observed = bad[1], bad[2]
+                else:
+                    expected = "%s, as without the update" % show(base[mult])
+                    observed = show(out)
+                case = option_case(cfg, opt, uname, mult)
+                acc.violation(sig, case, expected=expected, observed=observed, standalone=option_snippet(case, expected),
+                              detail=dict(A0=Pu.A0, target=target, update=uname))
+            if not violated and ucls is not None and (held_by(u.sample) != held or u.arguments() != args):
+                case = option_case(cfg, opt, uname, mults[-1])
+                expected = "the Sample's table and the caller's argument objects are the same before and after decay_time"
+                acc.violation("decay_time-alters-the-sample" if held_by(u.sample) != held
+                              else "decay_time-alters-an-argument-object", case, expected=expected,
+                              observed="%r %r -> %r %r" % (held, args, held_by(u.sample), u.arguments()),
+                              standalone=option_snippet(case, expected))
+            # the other sample that used the same environment object answers for its own table
+            if u.other is not None and not violated and ucls is not None:
+                Po = Products.from_table(u.other, list(OTHER_SAMPLE[2]).index(0))
+                if Po.physical and Po.A0 > 0:
+                    for mult, target, out, bad in ask_all(acc, u.other, Po, mults):
+                        acc.states += 1
+                        acc.transitions += 1
+                        acc.outcome("option | %s | other sample | %s" % (uname, "VIOLATES" if bad else "passes"))
+                        if bad is None:
+                            continue
+                        # cause probe (naming only): the first Sample, asked for this very target, answers rightly for
+                        # its own table, and that is the answer observed
+                        Pf = Products.from_table(u.sample, u.values.index(0)) if 0 in u.values else P
+                        out_f = call(u.sample, target)
+                        explained = out[0] == "time" and out_f[0] == "time" and judge(Pf, target, out_f) is None \
+                            and same_answer(Pf, target, out_f, out) and out[1] > 0
+                        sig = ("decay_time-answers-for-the-activation-of-another-sample:same-environment-object"
+                               if explained else name_call(act, bad[0], out, OTHER_SAMPLE[2], NothingLost, u.other, Po, target))
+                        case = option_case(cfg, opt, uname, mult, other=True)
+                        acc.violation(sig, case, expected=bad[1], observed=bad[2],
+                                      standalone=option_snippet(case, bad[1]), detail=dict(A0=Po.A0, target=target))
+                        break
+    return passed
+
+
+def _option_shard(job):
+    _, tier, cfgs = job
+    act = lib()
+    acc = Acc()
+    opts = option_list(OPT[tier]["exposures"])
+    for n, cfg in enumerate(cfgs):
+        cfg = (cfg[0], cfg[1], tuple(cfg[2]))
+        check_options(acc, act, cfg, opts, UPDATES, MULTS)
+        acc.count("option_configurations")
+        if n == 0:
+            acc.sample(dict(options_and_updates=dict(
+                formula=cfg[0], mass=cfg[1], fluence=cfg[2][0], Cd_ratio=cfg[2][1], fast_ratio=cfg[2][2],
+                abundance=list(OPT_ABUNDANCE), exposure=list(OPT[tier]["exposures"]),
+                rest_times=[dict(values=list(v), passed_as=list(f)) for v, f in OPT_REST],
+                updates=[u[0] for u in UPDATES], multipliers=list(MULTS))))
+    return acc
+
+
 # --------------------------------------------------------------------------------------- shards
 def _shard(job):
     if job[0] == "history":
         return _hist_shard(job)
+    if job[0] == "option":
+        return _option_shard(job)
     tier, cfgs = job
     act = lib()
     acc = Acc()
@@ -1072,6 +1627,11 @@ def run(ctx):
         per = 2 if ctx.quick else 1
         for i in range(0, len(keys), per):
             jobs.append(("history", tier, formula, [list(map(list, k)) for k in keys[i:i + per]]))
+    opt_formulas = [f for f in SAMPLES[tier]] + [f for f in OPT_FORMULAS if f not in SAMPLES[tier]]
+    for formula in rotate(opt_formulas, ctx.seed):
+        for mass in OPT[tier]["masses"]:
+            for envt in ENVS:
+                jobs.append(("option", tier, [(formula, mass, envt)]))
     ctx.pmap(_shard, jobs)
     acc = ctx.acc
     acc.traces = acc.transitions
@@ -1085,6 +1645,16 @@ def run(ctx):
     acc.info["collision_sample_formulas"] = [c[0] for c in collide]
     acc.info["fixed_rest_lists"] = len(LISTS)
     acc.info["target_multipliers"] = len(MULTS)
+    acc.info["option_formulas"] = opt_formulas
+    acc.info["option_updates"] = [u[0] for u in UPDATES]
+    acc.info["options_per_configuration"] = len(option_list(OPT[tier]["exposures"]))
+    if not acc.viol:
+        for key in ("option_cases_where_the_default_abundance_function_has_another_answer:IAEA1987",
+                    "option_cases_where_the_default_abundance_function_has_another_answer:custom",
+                    "update_cases_where_a_recalculation_from_the_updated_objects_has_another_answer:env.fluence-scaled",
+                    "update_cases_where_a_recalculation_from_the_updated_objects_has_another_answer:sample.environment-replaced"):
+            if not acc.info.get(key):
+                raise MachineryError("vacuous exploration: no case counted under %r" % key)
     if not acc.viol and (acc.nontrivial < 2 or not any(k.startswith("returns-time") for k in acc.outcomes)):
         raise MachineryError("vacuous exploration: no positive decay time was ever returned")
 
@@ -1094,6 +1664,16 @@ def replay(ctx, case, signature=None):
     """The recorded list (and the recorded base list) at the recorded multiplier; the list [0] is run as
     well because the attribution of a cause uses it as the control."""
     act = lib()
+    if case.get("kind") == "option":
+        cfg = (case["formula"], case["mass"], (case["fluence"], case["Cd_ratio"], case["fast_ratio"]))
+        opt = (case["abundance"], case["exposure"], tuple(case["rest_times"]), case["rest_form"])
+        opts = []       # the controls of the naming first
+        for o in (("omitted", opt[1], opt[2], "list"), (opt[0], opt[1], opt[2], "list"),
+                  ("omitted", opt[1], opt[2], opt[3]), opt):
+            if o not in opts:
+                opts.append(o)
+        check_options(ctx.acc, act, cfg, opts, UPDATES, (case["mult"],), report={(opt, case["update"])})
+        return
     if case.get("kind") == "history":
         check_history(ctx.acc, act, Fresh(act), case["formula"], [tuple(ev) for ev in case["events"]], case["ask"],
                       mults=(case["mult"],))
